@@ -58,7 +58,10 @@ def dispatch (op : String) : Option (List String → List String → Option (Str
   | "pool.ids" => some idsSpec
   | "labels" => some labels
   | "jitter" => some jitter
+  | "bjitter" => some (fun a i => jitter (a.drop 1) i)
   | "staged" => some staged
+  | "bstaged" => some bstaged
+  | "bramp" => some bramp
   | "ramp" => some ramp
   | "scn" => some scn
   | "scn2" => some scn2
